@@ -31,7 +31,7 @@ class VmDiscover:
         name_list = self._set_by_oper(self._param_to_value(name))
         if name_list and len(name_list) > 0:
             index = 0 if self._reg.disc_forward else -1
-            self._reg.result = name_list[index] or Operand.NULL
+            self._reg.result = name_list[index]
         else:
             self._reg.result = Operand.NULL
 
@@ -39,10 +39,7 @@ class VmDiscover:
         # Go to the next object in the iteration.
         name_list = self._names_by_oper()
         current = self._param_to_value(current)
-        if not self._reg.disc_forward:
-            self._reg.result = name_list.prev(current) or Operand.NULL
-        else:
-            self._reg.result = name_list.next(current) or Operand.NULL
+        self._reg.result = self._step(name_list, current)
 
     def dnextm(self, name, current) -> None:
         # Go to the next object in the member iteration.
@@ -53,10 +50,15 @@ class VmDiscover:
             self._reg.result = Operand.NULL
             return
         current = self._param_to_value(current)
-        if not self._reg.disc_forward:
-            self._reg.result = name_list.prev(current) or Operand.NULL
+        self._reg.result = self._step(name_list, current)
+
+    def _step(self, name_list, current):
+        # An empty name is a name: only the end of the list is NULL.
+        if self._reg.disc_forward:
+            name = name_list.next(current)
         else:
-            self._reg.result = name_list.next(current) or Operand.NULL
+            name = name_list.prev(current)
+        return Operand.NULL if name is None else name
 
     def _param_to_value(self, param):
         if isinstance(param, (str, Operand)):
